@@ -49,6 +49,17 @@ Theorem C05_written_line_shape : forall (g : list wslot) (r : wslot) (rest : lis
   exists data, line = [35] ++ show3 (ws_measure r) ++ ws_channel r ++ [58] ++ data
                /\ length data = (2 * Z.to_nat (ws_L r))%nat.
 Proof. exact written_line_shape. Qed.
+(* bms_write_wf for the note section as a whole: every line assembled from a slot table whose values are two-character
+   ids is '#' mmm cc ':' followed by an even number of characters *)
+Theorem C05_written_lines_shape : forall (slots : list wslot) (ls : list text),
+  Forall (fun s => length (ws_value s) = 2%nat /\ 0 <= ws_L s) slots ->
+  lines_of_slots slots = Some ls ->
+  Forall line_shape ls.
+Proof. exact written_lines_shape. Qed.
+Theorem C05_write_note_lines_is_lines_of_slots : forall rows,
+  write_note_lines rows =
+  lines_of_slots (map (fun p => slot_of (fst p) (snd p)) (combine rows (new_dens LCM_THRESHOLD rows))).
+Proof. exact write_note_lines_unfold. Qed.
 Theorem C05_line_read_back : forall m a b data,
   0 <= m < 1000 -> data_line ([35] ++ show3 m ++ [a; b] ++ [58] ++ data) = Some (m, [a; b], data).
 Proof. exact data_line_written. Qed.
